@@ -18,6 +18,7 @@ EXPLANATION = (
     "(additive along the coordinate / principal direction; stretch move Y = X_j + z (X_i - X_j) undone by the same move "
     "with 1/z; z(u) maps [0,1] monotonically onto [1/alpha, alpha] with density proportional to 1/sqrt(z)); the stored "
     "sample is the accepted point. Leapfrog reversibility / volume preservation / momentum law are C07's obligations."
+    " The tempering exchange (ParallelTempering.swap / tempering_process under the baton scheduler) is asserted to be the Metropolis move for the product of the tempered targets. The ensemble stretch law is obtained by driving the sampler's own proposal routine with a chosen uniform variate."
 )
 BOUNDS = {"quick": "dimension <=2, <=2 rejected attempts per coordinate (HMC / ensemble: <=2 attempts), 1 step, 3 walkers",
           "thorough": "dimension <=3 (Gibbs), <=3 rejected attempts, 4 walkers"}
@@ -260,19 +261,6 @@ def stretch_distribution_and_reversal(h):
     ev = mc.Events()
     d, nw = 1, 2
     en, s, post, alpha, X = mc.make_ensemble(h, d, nw, ev, max_attempts=1)
-    lw, wd = s.x_lwr, s.x_width
-    z_of = lambda u: 0.5 * (lw + wd * u) ** 2  # noqa: E731  (the sampler's own x_lwr / x_width)
-    h.eq("z(0) == 1/alpha", z_of(0.0 * alpha), 1 / alpha)
-    h.eq("z(1) == alpha", z_of(1.0 + 0.0 * alpha), alpha)
-    u = h.real("u", lo=0, hi=1)
-    J = h.jacobian(lambda uu: np.array([z_of(uu[0])], dtype=object if h.sym else float), np.array([u], dtype=object if h.sym else float))
-    h.ge("z(u) is increasing", J[0, 0], 0.0, strict=True)
-    h.eq("(dz/du)^2 == 2 z x_width^2   (density of z proportional to 1/sqrt z)", J[0, 0] * J[0, 0], 2 * z_of(u) * wd * wd, tol=1e-5)
-    # reversal: Y from (X_i, X_j, z);  the same code path with X_i := Y and stretch 1/z must return to X_i
-    z = z_of(u)
-    u_back = (h.sqrt(2.0 / z) - lw) / wd
-    h.ge("1/z is a reachable stretch (u' >= 0)", u_back, 0.0, tol=1e-9)
-    h.le("1/z is a reachable stretch (u' <= 1)", u_back, 1.0, tol=1e-9)
     X0 = np.array(X).copy()
 
     class R:
@@ -284,6 +272,27 @@ def stretch_distribution_and_reversal(h):
 
         def random(self):
             return self.uu
+
+    def z_of(uu):   # the stretch the sampler's own proposal code draws from the uniform variate uu
+        s.rng = R(uu)
+        s.walker_positions = np.array(X0, dtype=object if h.sym else float)
+        return s._EnsembleSampler__proposal(0)[1]
+    h.eq("z(0) == 1/alpha", z_of(0.0 * alpha), 1 / alpha)
+    h.eq("z(1) == alpha", z_of(1.0 + 0.0 * alpha), alpha)
+    u = h.real("u", lo=0, hi=1)
+    J = h.jacobian(lambda uu: np.array([z_of(uu[0])], dtype=object if h.sym else float), np.array([u], dtype=object if h.sym else float))
+    h.ge("z(u) is increasing", J[0, 0], 0.0, strict=True)
+    # density of z proportional to 1/sqrt z on [1/alpha, alpha]:  dz/du == c sqrt z  with  c = 2 (sqrt(alpha) - 1/sqrt(alpha))
+    # (written with sqrt(2 alpha), sqrt(2 / alpha):  c^2 = 2 (sqrt(2 alpha) - sqrt(2 / alpha))^2)
+    lw = h.sqrt(2.0 / alpha)
+    wd = h.sqrt(2.0 * alpha) - lw
+    h.eq("(dz/du)^2 == c^2 z   (density of z proportional to 1/sqrt z)", J[0, 0] * J[0, 0], 2 * wd * wd * z_of(u), tol=1e-5)
+    # reversal: Y from (X_i, X_j, z);  the same code path with X_i := Y and stretch 1/z must return to X_i
+    z = z_of(u)
+    u_back = (h.sqrt(2.0 / z) - lw) / wd   # the uniform variate that yields the stretch 1/z under that law
+    h.ge("1/z is a reachable stretch (u' >= 0)", u_back, 0.0, tol=1e-9)
+    h.le("1/z is a reachable stretch (u' <= 1)", u_back, 1.0, tol=1e-9)
+    s.walker_positions = np.array(X0, dtype=object if h.sym else float)
     s.rng = R(u)
     Y, zz = s._EnsembleSampler__proposal(0)
     h.eq("stretch used == z(u)", zz, z)
